@@ -229,6 +229,41 @@ theorem loaded_value (c : Cfg) (s' : Dict) (a : Attr) (v : PyVal) (ha : attrOfNa
 theorem attrOfName_name (a : Attr) (h : a ≠ Attr.raised_) : attrOfName a.name = some a := by
   cases a <;> first | rfl | exact absurd rfl h
 
+/-! ## the configuration file: raw text, option by option
+
+`_load_config_file` parses with `ConfigParser.RawConfigParser()` — the translator reads that constructor from the source
+(`fileParser`, `fileParserRaw`) and accepts nothing else — so the model's file items are the raw texts of the section.
+The three theorems say that nothing in a value is special: an option without a type takes ANY text as it is and can
+never make the file unusable; the file is dropped exactly when a TYPED option holds an invalid literal; and every
+option's file value is a function of its own (last) raw text only — `%`, `$`, `#`, `=` … in one option change nothing
+about any other. -/
+
+example : fileParserRaw = true := rfl
+
+/-- an option that is neither numeric nor boolean loads as the raw text, whatever it contains -/
+theorem untyped_value_raw (k v : Str) (h1 : k ≠ kRetries) (h2 : k ≠ kCmdTimeout) (h3 : k ≠ kHttpTimeout)
+    (h4 : isDefaultBool k = false) : fileCoerce k v = some (.str v) := by
+  simp [fileCoerce, h1, h2, h3, h4]
+
+/-- the file is kept iff every item coerces; by `untyped_value_raw` only typed options can fail -/
+theorem file_kept_iff (items : List (Str × Str)) :
+    (coerceAll items).isSome = true ↔ ∀ kv ∈ items, (fileCoerce kv.1 kv.2).isSome = true := by
+  induction items with
+  | nil => simp [coerceAll]
+  | cons hd tl ih =>
+    obtain ⟨k, v⟩ := hd
+    simp only [coerceAll, List.forall_mem_cons, ← ih]
+    cases fileCoerce k v <;> cases coerceAll tl <;> simp
+
+/-- in a file that is kept, the value of `k` is the coercion of the LAST raw text the section holds for `k`:
+no other item of the file has any influence on it (same for the legacy section, `legacy_section_loads`) -/
+theorem file_value_local (items : List (Str × Str)) (d : Dict) (h : coerceAll items = some d) (k : Str) :
+    dget (fileDict (.section items)) k = (lastRaw items k).bind (fileCoerce k) := by
+  simp only [fileDict, FileSrc.items?, h, dofPairs, dget_dupdate, dlast_coerced items d h k]
+  cases (lastRaw items k).bind (fileCoerce k) <;> rfl
+
+example : fileCoerce ['p','a','s','s','w','o','r','d'] ['s','%','c','r','e','t'] = some (.str ['s','%','c','r','e','t']) := by decide
+
 /-! ## Part 3: `_print_errors` only controls what is PRINTED
 
 The flag never changes a setting or the verdict: not in the translated decision code (every use of
